@@ -49,6 +49,14 @@ impl IDataCipher for CurveDataCipher {
   /// Encrypts a single block of plaintext (e.g., one or more ZMTP frames).
   /// Returns a Vec containing [MAC][Ciphertext].
   fn encrypt(&mut self, plaintext: &[u8]) -> Result<Vec<u8>, ZmqError> {
+    // The record layer prefixes each encrypted block with a 16-bit length. Refuse what
+    // cannot be represented before the nonce counter moves, so the session stays in sync.
+    if plaintext.len() > (u16::MAX as usize - CRYPTO_BOX_MACBYTES) {
+      return Err(ZmqError::InvalidMessage(
+        "Payload too large for a CURVE record.".into(),
+      ));
+    }
+
     let nonce = Self::construct_nonce(self.send_nonce_counter);
     let mut mac = Mac::new_byte_array();
     let mut ciphertext = vec![0u8; plaintext.len()];
